@@ -1,5 +1,7 @@
 (* Case checker additions for the language-chain passes: which correspondence cases have an
-   implementation result that depends on Go's map iteration order. *)
+   implementation result that depends on Go's map iteration order, and which ones run an
+   in-place pass on a result in which an earlier pass left shared pointers (the functional
+   models do not reproduce the effect of that sharing). *)
 From Cog Require Export Model.Spec15.
 Local Open Scope list_scope.
 
@@ -15,3 +17,30 @@ Fixpoint map_order_sensitive (ps : list pass) (ss : schemas) : bool :=
   end.
 Definition case_map_order (c : pcase) : bool :=
   let '(input, ps, _, _) := c in map_order_sensitive ps input.
+
+(* passes that never write through a payload pointer another place could share *)
+Definition harmless_after_sharing (p : pass) : bool :=
+  match p with
+  | PPrefixEnumValues | PRenameNumericEnumValues | PDataqueryIdentification | POmit _
+  | PSchemaSetIdentifier _ _ | PSchemaSetEntrypoint _ _ | PInferEntrypoint | PFilterSchemas _
+  | PAppendCommentObjects _ | PAddObject _ _ _ _ => true
+  | _ => false
+  end.
+Fixpoint alias_sensitive (ps : list pass) (ss : schemas) : bool :=
+  match ps with
+  | [] => false
+  | p :: r =>
+      (negb (forallb harmless_after_sharing r) &&
+       match p with
+       | PFlattenDisjunctions => fd_shares ss
+       | PDisjunctionToType => dtt_shares ss
+       | PRemoveIntersections => ri_shares ss
+       | _ => false
+       end)
+      || match run_pass p ss with
+         | Ok ss' => alias_sensitive r ss'
+         | _ => false
+         end
+  end.
+Definition case_alias (c : pcase) : bool :=
+  let '(input, ps, _, _) := c in alias_sensitive ps input.
